@@ -1,8 +1,14 @@
 //! `nv misc`: function-level differential checks of three small pure pieces of NOMT against their
-//! extracted Coq mirrors (Shards.v, Overflow.v, BitOps.v):
-//!   C13  page-cache sharding: `shard_regions`, `shard_index_for` (exhaustive over 1..=64 shards and
-//!        the 64 root children) and the per-worker split of a sorted batch (`RangeUpdater::new`:
-//!        `binary_search_by_key(min key)` / `partition_point(key <= max key)` on the real region keys)
+//! extracted Coq models (ShardsGen.v / Shards.v, Overflow.v, BitOps.v):
+//!   C13  page-cache sharding, independent of the split POLICY: the REAL regions of
+//!        `shard_regions(n)` are uploaded to the driver (`regs ...`) and judged by the extracted
+//!        `regions_okb` (any partition of the 64 root children into n contiguous non-empty runs
+//!        passes), `shard_index_for(n, c)` must be `index_of_child` on the real regions
+//!        (exhaustive over 1..=64 shards and the 64 root children), and the per-worker split of a
+//!        sorted batch (`RangeUpdater::new`: `binary_search_by_key(min key)` /
+//!        `partition_point(key <= max key)` on the real region keys) must be `ranges_of <real
+//!        regions> ks`.  Whether the split is the one of the reference mirror
+//!        (Shards.shard_regions) is a statistic, not a violation.
 //!   C01  overflow page arithmetic `total_needed_pages` (every size in [1333, 300000] plus sampled
 //!        sizes up to 2^29) and the separator bit operations `prefix_len`, `separate`,
 //!        `separator_len` on generated key pairs.
@@ -80,8 +86,24 @@ fn key_pred(k: &Key) -> Option<Key> {
 // items
 // ---------------------------------------------------------------------------------------------
 
+/// `regs <k> <min>:<max>:<count> ... <sub>`: the driver command that hands the REAL regions to the
+/// extracted ShardsGen functions (regions_okb / index_of_child / ranges_of)
+fn regs_cmd(regions: &[(Key, Key, usize)], sub: &str) -> String {
+    let mut s = format!("regs {}", regions.len());
+    for (a, b, c) in regions {
+        s.push_str(&format!(" {}:{}:{}", hex(a), hex(b), c));
+    }
+    s.push(' ');
+    s.push_str(sub);
+    s.trim_end().to_string()
+}
+
 fn eval_shards(acc: &mut Acc, m: &mut Model, n: usize, line: &str) {
     let rust = nomt::verif_api::shard_regions(n);
+    // the property: the extracted regions_okb judges the real regions (any valid split passes)
+    let verdict = m.ask(&regs_cmd(&rust, "ok"));
+    let okb = verdict == "1";
+    // statistic only: is it the split of the reference mirror (Shards.shard_regions n)?
     let reply = m.ask(line);
     let model: Vec<(Key, Key, usize)> = reply
         .split(' ')
@@ -93,25 +115,19 @@ fn eval_shards(acc: &mut Acc, m: &mut Model, n: usize, line: &str) {
         .collect();
     if acc.verbose {
         println!("  rust : {}", rust.iter().map(|(a, b, c)| format!("{}:{}:{}", hex(a), hex(b), c)).collect::<Vec<_>>().join(" "));
-        println!("  model: {}", reply);
+        println!("  regions_okb (extracted, on the real regions): {}", verdict);
+        println!("  reference split: {}", reply);
     }
     acc.evals += rust.len().max(1) as u64;
-    acc.inc("shards.regions_compared", rust.len() as u64);
-    if rust.len() != model.len() {
-        acc.violate("c13-shards-regions-model", format!("shard_regions({}): {} regions in Rust, {} in the model", n, rust.len(), model.len()), line.to_string());
-        return;
+    acc.inc("shards.regions_judged", rust.len() as u64);
+    acc.inc("shards.splits_judged", 1);
+    if rust == model {
+        acc.inc("shards.regions_equal_to_the_reference_split", 1);
+    } else {
+        acc.inc("shards.regions_equal_to_the_reference_split", 0);
+        acc.inc("shards.regions_different_from_the_reference_split", 1);
     }
-    for (i, (r, mm)) in rust.iter().zip(model.iter()).enumerate() {
-        if r != mm {
-            acc.violate(
-                "c13-shards-regions-model",
-                format!("shard_regions({})[{}]: Rust ({}, {}, {}) model ({}, {}, {})", n, i, hex(&r.0), hex(&r.1), r.2, hex(&mm.0), hex(&mm.1), mm.2),
-                line.to_string(),
-            );
-            return;
-        }
-    }
-    // the statement of shards_partition, on the Rust values
+    // the statement of regions_okb_sound, on the Rust values (says WHAT is wrong)
     let mut bad: Option<String> = None;
     if rust.len() != n {
         bad = Some(format!("{} regions for {} shards", rust.len(), n));
@@ -129,23 +145,40 @@ fn eval_shards(acc: &mut Acc, m: &mut Model, n: usize, line: &str) {
     if next_child != 64 {
         bad = bad.or(Some(format!("regions end at child {} instead of 64", next_child)));
     }
-    if let Some(b) = bad {
-        acc.violate("c13-shards-partition", format!("shard_regions({}) is not an ordered partition of the 64 root children: {}", n, b), line.to_string());
+    if !okb || bad.is_some() {
+        acc.violate(
+            "c13-shards-partition",
+            format!(
+                "shard_regions({}) is not an ordered partition of the 64 root children into {} non-empty contiguous runs: regions_okb = {}; {}",
+                n,
+                n,
+                if okb { "true" } else { "false" },
+                bad.unwrap_or_else(|| "(the Rust-side check of the same statement found nothing)".to_string())
+            ),
+            line.to_string(),
+        );
+        return;
     }
     acc.nontrivial.insert(line.to_string());
 }
 
 fn eval_shardidx(acc: &mut Acc, m: &mut Model, n: usize, line: &str) {
     let rust: Vec<Result<usize, ()>> = (0..64).map(|c| catch_unwind(|| nomt::verif_api::shard_index_for(n, c)).map_err(|_| ())).collect();
-    let reply = m.ask(line);
+    let regions = nomt::verif_api::shard_regions(n);
+    // index_of_child (extracted) on the REAL regions: the region that contains the child
+    let reply = m.ask(&regs_cmd(&regions, "idx"));
     let model: Vec<usize> = reply.split(' ').filter(|s| !s.is_empty()).map(|s| s.parse().unwrap()).collect();
+    // statistic only: the reference mirror's shard_index_for
+    let ref_reply = m.ask(line);
+    let reference: Vec<usize> = ref_reply.split(' ').filter(|s| !s.is_empty()).map(|s| s.parse().unwrap()).collect();
     if acc.verbose {
         println!("  rust : {:?}", rust);
-        println!("  model: {}", reply);
+        println!("  index_of_child on the real regions: {}", reply);
+        println!("  reference split: {}", ref_reply);
     }
     acc.evals += 64;
     acc.inc("shards.index_answers_compared", 64);
-    let regions = nomt::verif_api::shard_regions(n);
+    acc.inc("shards.index_answers_equal_to_the_reference_split", (0..64).filter(|c| rust[*c].ok() == reference.get(*c).copied()).count() as u64);
     for c in 0..64 {
         match rust[c] {
             Err(()) => {
@@ -153,13 +186,25 @@ fn eval_shardidx(acc: &mut Acc, m: &mut Model, n: usize, line: &str) {
                 return;
             }
             Ok(s) => {
-                if model.get(c) != Some(&s) {
-                    acc.violate("c13-shards-index-model", format!("shard_index_for({}, {}): Rust {} model {:?}", n, c, s, model.get(c)), line.to_string());
-                    return;
-                }
                 let inside = regions.get(s).map(|(lo, hi, _)| child_of(lo) <= c && c <= child_of(hi)).unwrap_or(false);
-                if !inside {
-                    acc.violate("c13-shards-index-region", format!("shard_index_for({}, {}) = {} but that shard's region does not contain root child {}", n, c, s, c), line.to_string());
+                if model.get(c) != Some(&s) || !inside {
+                    acc.violate(
+                        "c13-shards-index-region",
+                        format!(
+                            "shard_index_for({}, {}) = {} but root child {} lies in {} of shard_regions({}) (index_of_child on the real regions){}",
+                            n,
+                            c,
+                            s,
+                            c,
+                            match model.get(c) {
+                                Some(i) if *i < regions.len() => format!("region {}", i),
+                                _ => "no region".to_string(),
+                            },
+                            n,
+                            if inside { "" } else { "; that shard's region does not contain the child" }
+                        ),
+                        line.to_string(),
+                    );
                     return;
                 }
                 acc.nontrivial.insert(format!("idx {} {}", n, c));
@@ -180,7 +225,8 @@ fn eval_ranges(acc: &mut Acc, m: &mut Model, n: usize, keys: &[Key], line: &str)
             (start, end)
         })
         .collect();
-    let reply = m.ask(line);
+    // ranges_of <real regions> ks (extracted)
+    let reply = m.ask(&regs_cmd(&regions, &format!("ranges {}", keys.iter().map(|k| hex(k)).collect::<Vec<_>>().join(" "))));
     let model: Vec<(usize, usize)> = reply
         .split(' ')
         .filter(|s| !s.is_empty())
@@ -191,14 +237,14 @@ fn eval_ranges(acc: &mut Acc, m: &mut Model, n: usize, keys: &[Key], line: &str)
         .collect();
     if acc.verbose {
         println!("  rust : {}", rust.iter().map(|(a, b)| format!("{}:{}", a, b)).collect::<Vec<_>>().join(" "));
-        println!("  model: {}", reply);
+        println!("  ranges_of on the real regions: {}", reply);
     }
     acc.evals += rust.len() as u64;
     acc.inc("ranges.worker_ranges_compared", rust.len() as u64);
     acc.inc("ranges.batches", 1);
     if rust != model {
         let i = (0..rust.len().max(model.len())).find(|i| rust.get(*i) != model.get(*i)).unwrap_or(0);
-        acc.violate("c13-shards-ranges-model", format!("batch of {} keys, {} shards: worker {} gets {:?} in Rust, {:?} in the model", keys.len(), n, i, rust.get(i), model.get(i)), line.to_string());
+        acc.violate("c13-shards-ranges-model", format!("batch of {} keys, {} shards: worker {} gets {:?} in Rust, {:?} by ranges_of on the real regions", keys.len(), n, i, rust.get(i), model.get(i)), line.to_string());
         return;
     }
     // the statement of ranges_partition, on the Rust values
@@ -699,7 +745,7 @@ pub fn cmd_misc(kv: &HashMap<String, String>) -> i32 {
         items.iter().filter(|l| seen.insert(l.split(' ').next().unwrap_or("").to_string())).take(6).map(|l| J::s(short(l))).collect()
     };
     let rule = match prop.as_str() {
-        "C13" => "one evaluation = one result of the real function compared with the extracted Coq mirror (Shards.v) on the same input: one shard's (min key, max key, child count) of shard_regions(n), one answer of shard_index_for(n, child) - both for ALL n in 1..=64 and ALL 64 children - and one worker's [range_start, range_end) of a generated sorted batch computed as RangeUpdater::new does (binary_search_by_key / partition_point on the real region keys); each item is also checked on the Rust values against the proved statements (shards_partition, ranges_partition); distinct = distinct item text; non-trivial = a batch spread over at least two workers, or a region / index answer",
+        "C13" => "one evaluation = one result of the real function judged by / compared with the extracted Coq functions of ShardsGen.v applied to the REAL regions: one shard's (min key, max key, child count) of shard_regions(n) under regions_okb (ANY partition of the 64 root children into contiguous non-empty runs passes; the comparison with the reference split Shards.shard_regions is a statistic), one answer of shard_index_for(n, child) against index_of_child on the real regions - both for ALL n in 1..=64 and ALL 64 children - and one worker's [range_start, range_end) of a generated sorted batch computed as RangeUpdater::new does (binary_search_by_key / partition_point on the real region keys) against ranges_of <real regions> batch; each item is also checked on the Rust values against the proved statements (regions_okb_sound, ranges_partition_gen); distinct = distinct item text; non-trivial = a batch spread over at least two workers, or a region / index answer",
         _ => "one evaluation = one result of the real function compared with the extracted Coq mirror on the same input: total_needed_pages(size) (Overflow.v; every size in [1333, 300000] plus sampled sizes up to 2^29) and, per key pair, prefix_len, separate (value or panic) and separator_len of a, b and the separator (BitOps.v; shared prefixes of every length 0..255, adjacent keys, all-zero / all-one tails, equal keys); the Rust values are also checked against the proved statements (fits, last page used, at most one page wasted; a < separator <= b, shortest, zero padded prefix of b); distinct = distinct input; non-trivial = a size needing out-of-cell pointers (more than 15 pages) or a key pair with a < b",
     };
     let j = J::obj(vec![
@@ -713,6 +759,14 @@ pub fn cmd_misc(kv: &HashMap<String, String>) -> i32 {
             "stats",
             J::obj(vec![
                 ("counters", J::Obj(acc.stats.iter().map(|(k, v)| (k.clone(), J::Int(*v as i64))).collect())),
+                // C13: which valid split the code uses is a policy - reported, never a violation
+                (
+                    "regions_equal_to_the_reference_split",
+                    match acc.stats.get("shards.splits_judged") {
+                        Some(t) => J::s(format!("{} of {}", acc.stats.get("shards.regions_equal_to_the_reference_split").copied().unwrap_or(0), t)),
+                        None => J::Null,
+                    },
+                ),
                 ("sizes_with_one_page_more_than_needed", J::Arr(acc.overalloc_samples.iter().map(|s| J::Int(*s as i64)).collect())),
                 ("violations_per_sig", J::Obj(per_sig.iter().map(|(k, v)| (k.clone(), J::Int(*v as i64))).collect())),
             ]),
